@@ -28,7 +28,7 @@ XSD = (f'<xs:schema xmlns:xs="{cm.XS}" targetNamespace="{T}" xmlns:t="{T}" eleme
        '<xs:element name="doc"><xs:complexType><xs:sequence>'
        '<xs:element name="rec" type="t:rec" maxOccurs="unbounded"/></xs:sequence></xs:complexType></xs:element>'
        '<xs:complexType name="rec"><xs:sequence>'
-       '<xs:element name="name" type="xs:string"/>'
+       '<xs:element name="name" type="xs:string"/><xs:element name="fx" type="xs:int" fixed="1" minOccurs="0"/>'
        '<xs:element name="tags" minOccurs="0" maxOccurs="2"><xs:simpleType><xs:list itemType="xs:int"/></xs:simpleType></xs:element>'
        '<xs:element name="code" type="t:code" minOccurs="0"/>'
        '<xs:element name="opt" type="xs:int" nillable="true" minOccurs="0"/>'
@@ -43,7 +43,8 @@ XSD = (f'<xs:schema xmlns:xs="{cm.XS}" targetNamespace="{T}" xmlns:t="{T}" eleme
        '<xs:choice minOccurs="0" maxOccurs="unbounded"><xs:element name="a" type="xs:int"/>'
        '<xs:element name="b" type="xs:string"/></xs:choice>'
        '</xs:sequence><xs:attribute name="id" type="xs:int" use="required"/>'
-       '<xs:attribute name="flag" type="xs:boolean"/><xs:attribute name="ucode" type="t:code"/></xs:complexType>'
+       '<xs:attribute name="flag" type="xs:boolean"/><xs:attribute name="ucode" type="t:code"/>'
+       '<xs:attribute name="ver" type="xs:int" fixed="1"/></xs:complexType>'
        '<xs:complexType name="altBase"><xs:sequence><xs:element name="x" type="xs:string" minOccurs="0"/></xs:sequence>'
        '<xs:attribute name="kind" type="xs:boolean" use="required"/></xs:complexType>'
        '<xs:complexType name="altFull"><xs:complexContent><xs:restriction base="t:altBase"><xs:sequence>'
@@ -52,8 +53,8 @@ XSD = (f'<xs:schema xmlns:xs="{cm.XS}" targetNamespace="{T}" xmlns:t="{T}" eleme
        '</xs:restriction></xs:complexContent></xs:complexType>'
        '<xs:simpleType name="code"><xs:restriction><xs:simpleType><xs:union memberTypes="xs:int xs:string"/>'
        '</xs:simpleType><xs:pattern value="[0-9]{3}|[a-z]{2,5}"/></xs:restriction></xs:simpleType></xs:schema>')
-TEXT = {"s": "abc", "i": "5", "d": "2.5", "l": "1 2 3", "x": "zz", "u3": "123", "ua": "abc"}
-ATTR = {"i": "7", "bool": "true", "boolF": "false", "s": "EUR", "u3": "456", "ua": "xyz", "t": "true", "f": "false"}
+TEXT = {"f1": "01", "s": "abc", "i": "5", "d": "2.5", "l": "1 2 3", "x": "zz", "u3": "123", "ua": "abc"}
+ATTR = {"f1": "+1", "i": "7", "bool": "true", "boolF": "false", "s": "EUR", "u3": "456", "ua": "xyz", "t": "true", "f": "false"}
 ALT11 = ("<xs:alternative test=\"@kind = 'true'\" type=\"t:altFull\"/><xs:alternative type=\"t:altPlain\"/>")
 XSI_NS = "http://www.w3.org/2001/XMLSchema-instance"
 _schema: dict = {}
@@ -134,6 +135,8 @@ def abstract(elem):
                 attrs.append(["kind", {"true": "bool", "1": "bool", "false": "boolF", "0": "boolF"}.get(v.strip(), "x")])
             elif k == "lvl":
                 attrs.append(["lvl", "i" if is_int(v) else "x"])
+            elif k == "ver":
+                attrs.append(["ver", "f1" if (is_int(v) and int(v) == 1) else "x"])
             elif k == "ucode":
                 attrs.append(["ucode", code_class(v)])
             elif k == "{%s}nil" % XSI_NS:
@@ -146,6 +149,8 @@ def abstract(elem):
             cls = "m"
         elif not txt.strip():
             cls = "-"
+        elif name == "fx":
+            cls = "f1" if (is_int(txt) and int(txt) == 1) else "x"
         elif name in ("a", "opt"):
             cls = "i" if is_int(txt) else "x"
         elif name == "code":
@@ -172,7 +177,7 @@ def typed(elem):
     def val(name, s):
         s = (s or "").strip()
         try:
-            if name in ("a", "id", "opt", "lvl"):
+            if name in ("a", "id", "opt", "lvl", "ver", "fx"):
                 return int(s)
             if name in ("code", "ucode") and re.fullmatch(r"[0-9]{3}", s):
                 return int(s)
@@ -188,7 +193,10 @@ def typed(elem):
 
     def walk(e):
         name = e.tag.split("}")[-1]
-        attrs = tuple(sorted((k.split("}")[-1], val(k.split("}")[-1], v)) for k, v in e.attrib.items()))
+        attrs = {k.split("}")[-1]: val(k.split("}")[-1], v) for k, v in e.attrib.items()}
+        if name == "rec":
+            attrs.setdefault("ver", 1)      # an absent attribute with a fixed value IS that value (C03)
+        attrs = tuple(sorted(attrs.items()))
         kids = tuple(walk(c) for c in e if isinstance(c.tag, str))
         if name == "para":      # mixed: the character data chunks in order, each whitespace-stripped
             text = tuple(t.strip() for t in ([e.text] + [c.tail for c in e]) if t and t.strip())
